@@ -635,6 +635,18 @@ where
         None
     }
 
+    /// Hand every job still waiting in this worker's own queue to the discard handler
+    /// (used when the factory shuts down: nothing will ever dispatch them)
+    pub(crate) fn discard_queued_jobs(&mut self, reason: DiscardReason) {
+        let Some(handler) = self.discard_handler.clone() else {
+            return;
+        };
+        while let Some(mut job) = self.message_queue.pop_front() {
+            self.untrack_pending_key(&job.key);
+            handler.discard(reason.clone(), &mut job);
+        }
+    }
+
     pub(crate) fn new(
         factory_name: String,
         wid: WorkerId,
